@@ -146,6 +146,8 @@ func main() {
 		cmdDump(os.Args[2:])
 	case "check":
 		cmdCheck(os.Args[2:])
+	case "globals":
+		cmdGlobals(os.Args[2:])
 	case "replay":
 		cmdReplay(os.Args[2:])
 	default:
